@@ -271,6 +271,7 @@ type Ctx struct {
 	nfresh int
 	decl   map[string]bool
 	quant  int // > 0 while a term under a quantifier is being built: nothing mentioning bound variables may be emitted
+	qfacts [][]string // typing facts about terms under the binder, per open quantifier
 }
 
 func NewCtx() *Ctx { return &Ctx{decl: map[string]bool{}} }
